@@ -64,7 +64,7 @@ Verdict(c) ==
 TInit == l \in {i \in 1..Len(Cases) : i % Chunk = 1 \/ Chunk = 1}
 TNext == /\ l <= Len(Cases)
          /\ LET r == Verdict(Cases[l]) IN /\ \A d \in r[2] : PrintT(<<"DEV", Cases[l].id, d>>)
-                                          /\ (r[3] = <<>> \/ PrintT(<<"WHY", Cases[l].id, ToJson(r[3])>>))
+                                          /\ (IF r[3] = <<>> THEN TRUE ELSE PrintT(<<"WHY", Cases[l].id, ToJson(r[3])>>))
                                           /\ PrintT(<<"VERDICT", Cases[l].id, r[1]>>)
          /\ l % Chunk # 0
          /\ l' = l + 1
